@@ -16,13 +16,13 @@ TEXT = {
  "C04": ("Validators part of Serve.tla: PreconditionFailed/NotModified as the two sentences of the property; ServeMC mode cond checks the Impl model on the categorical product; traces over ETag x mtime(sub-second) x If-Match x If-None-Match x dates x method validated with Enforce={C04}.", "4 C04"),
  "C05": ("IfRangeVerdict in Serve.tla (yes / no / free for a date equal to Last-Modified); ServeMC mode ifrange; traces over near-miss tags, dates, garbage x single/multi/unsatisfiable ranges, both directions (never 206 unless honoured; still honoured when matching).", "4 C05"),
  "C06": ("Expected multipart token sequence (part header with recomputed decimal widths, data run, trailer) and Content-Length = sum of token lengths, checked on the model (PartEstimate=1) and on traces with real part headers, 2..8 ranges, entity lengths to 2^64-1, 0..3 entity headers, with/without If-Range, chunked part streams, multi-segment Buf data types; boundary length taken from the response (any RFC 2046 boundary).", "4 C06"),
- "C07": ("Entity streams are scripted (yield/pending/end/fail/overrun) and logged; ServeMC mode body explores every script of <=2-3 items per call for 200 / single 206 / 2-3 part multipart; predicates: no clean end after a short/failed/overrunning stream, nothing beyond the announced length, no clean end when the stream has nothing more to give (look-ahead field of the script); Stream::size_hint implemented or not; file-backed entities truncated between polls.", "4 C07"),
+ "C07": ("Entity streams are scripted (yield/pending/end/fail/overrun) and logged; ServeMC mode body explores every script of <=2-3 items per call for 200 / single 206 / 2-3 part multipart; predicates: no clean end after a short/failed/overrunning stream, nothing beyond the announced length, no clean end when the stream has nothing more to give (look-ahead field of the script); Stream::size_hint implemented or not; file-backed entities truncated between polls; streams that keep failing after their first error.", "4 C07"),
  "C08": ("Stream.tla models BodyWriter(raw)+chunker at lock/wake granularity; StreamMC explores every producer program <=3-4 ops x chunk sizes x all interleavings with the consumer loop; StreamGen emits TLC behaviours that are replayed in the real code through the hook scheduler; every step (Probe snapshot, results, frames) is validated by StreamTrace with Enforce={C08} and compared with the Impl model (Strict). A free-running stress family (real threads, real lock contention, logically decided facts only) complements the baton scheduler; every trace check runs on a debug-assertions build and an optimised build.", "4 C08"),
  "C09": ("The gzip encoder is outside TLA+'s useful reach; an independent inflate/CRC-32 decoder in the harness projects frames to facts (decoded length, common prefix with the accepted bytes, member completeness, CRC, ISIZE, trailing bytes) and StreamTrace requires: after each successful flush everything accepted is decodable from the available frames, after drop exactly one valid member decoding to the accepted bytes. Transport/ordering around the encoder is the C08 model. The flush protocol between BodyWriter, flate2's buffer and the compressor (where defect F10 lived) is modelled in GzFlush.tla and checked exhaustively by TLC (FlushInv, FinishInv, ConservedInv, LemmaInv; witness: flate2's flush alone loses bytes); traces include vectored writes and writes of 40-400 KB of incompressible data.", "4 C09, 8.7"),
- "C10": ("StreamMC: all interleavings at lock-acquisition and wake granularity of producer programs (write/flush/wait/abort/drop) with a consumer that parks on the waker it passed, re-polls spuriously and presents waker 1 or 2; lost wake-ups are deadlocks of the model and the NoLostWakeup invariant; the real code runs the TLC-emitted and seeded schedules under the baton scheduler and every step is validated (a parked consumer nobody will wake is a `stuck` event); scheduling points also after each wake() call (eager wakers); liveness EventuallyTerminal under FairSpec; free-running stress cases.", "4 C10"),
+ "C10": ("StreamMC: all interleavings at lock-acquisition and wake granularity of producer programs (write/flush/wait/abort/drop) with a consumer that parks on the waker it passed, re-polls spuriously and presents waker 1 or 2; lost wake-ups are deadlocks of the model and the NoLostWakeup invariant; the real code runs the TLC-emitted and seeded schedules under the baton scheduler and every step is validated (a parked consumer nobody will wake is a `stuck` event); scheduling points also after each wake() call (eager wakers) and inside Waker::clone; a wake-up delivered while the mutex is held is a violation; liveness EventuallyTerminal under FairSpec; free-running stress cases.", "4 C10"),
  "C11": ("Abort and body-drop positions are part of the producer program / consumer schedule in StreamMC (AllowCDrop) and in the replayed/seeded schedules; predicates: next terminal after abort is an error, delivered is a prefix, no end-of-stream claim while the error is pending, writes/flushes fail after abort / after a first error / after the body is gone, queue released; bodies and writers dropped normally and during panic unwinding; a consumer stuck after an abort is a C11 violation too.", "4 C11"),
  "C12": ("Hints and the end-of-stream flag are sampled before every poll (serve bodies) or as separate scheduled operations (streaming bodies) and kept as history; predicates evaluated at every step on both models and on all traces of the serve and stream engines.", "4 C12"),
- "C13": ("ServeMC mode env: any of the six headers may be garbage (refined nondeterministically to a parse error or any well-formed value): status stays in the envelope, 405 + Allow for other methods; traces: arbitrary bytes, near-misses, boundary numbers, repeated lines, all methods, entity lengths to 2^64-1; panics are recorded as events.", "4 C13"),
+ "C13": ("ServeMC mode env: any of the six headers may be garbage (refined nondeterministically to a parse error or any well-formed value): status stays in the envelope, 405 + Allow for other methods; traces: arbitrary bytes, near-misses, boundary numbers, repeated lines, all methods, entity lengths to 2^64-1, modification times before 1970 and beyond the year 9999; panics are recorded as events.", "4 C13"),
  "C14": ("Head clauses over the projected response head (Accept-Ranges, ETag byte-identical, Date within the call bracket, Last-Modified = floor(mtime) or Date, entity headers on 200/206 only) and two-request histories (second request copies validators verbatim from the first response) for all 32 subsets x ETag x mtime classes.", "4 C14"),
  "C15": ("Every case is issued as GET and HEAD against fresh entities; the pair predicate (same status, same header lines except Date/Last-Modified, empty HEAD body with exact hint 0, no get_range call) is checked on the model (PairInv) and on traces; streaming_body: HEAD => no writer, same headers.", "4 C15"),
  "C16": ("AcceptEncoding.tla transcribes the property (not the code); NegMC checks sanity lemmas and that the code's duplicate rule lies inside the envelope; every rendered list (all 1-2 element lists, seeded 3-4 element lists, 4 whitespace renderings) is decided by TLC. Six lemmas about the decision function (AcceptEncodingProofs.tla) are proved by TLAPS for lists of any length.", "4 C16"),
@@ -62,9 +62,9 @@ m = {"version": 1,
      "hooks": {"guard": "cargo feature verif-hooks",
                "enable": "the harness crate depends on http-serve (path /repo) with features [\"dir\", \"verif-hooks\"]; checks run `cargo build --offline` in /verif/harness",
                "baseline_off_cmd": "cd /repo && cargo test --workspace --no-fail-fast --offline",
-               "source_commits": ["5b370dd", "ce42520"], "add_only": True},
+               "source_commits": ["5b370dd", "ce42520", "37199fc"], "add_only": True},
      "engines": engines, "checks": checks,
-     "notes": "All 20 properties are decided with TLA+ specifications under /verif/spec (TLC). Fix commits in /repo: b326285 a3342c0 c3279bc 0f2024b 94a5652 87f4e6c 1320894 7e6abb3 5f58985 ec0fe7e (see known_findings.json; DESIGN.md 8.3 describes defects F1-F10). tools/mutation_run.py applies /verif/mutants/*.patch and /verif/seeded/*/patch.diff to /repo, runs checks and restores the tree; DESIGN.md 8.5/8.6 record which check catches which of the hand-written mutants and the 83 changes seeded by independent sub-agents, and which behaviour-preserving changes (mutants/L_*.patch, legit/a1..a8) stay silent.",
+     "notes": "All 20 properties are decided with TLA+ specifications under /verif/spec (TLC). Fix commits in /repo: b326285 a3342c0 c3279bc 0f2024b 94a5652 87f4e6c 1320894 7e6abb3 5f58985 ec0fe7e cb8c62b a298ee1 (see known_findings.json; DESIGN.md 8.3 describes defects F1-F12). tools/mutation_run.py applies /verif/mutants/*.patch and /verif/seeded/*/patch.diff to /repo, runs checks and restores the tree; DESIGN.md 8.5/8.6 record which check catches which of the hand-written mutants and the 95 changes seeded by independent sub-agents, and which behaviour-preserving changes (mutants/L_*.patch, legit/a1..a8) stay silent.",
      "not_applicable": []}
 json.dump(m, open(os.path.join(VERIF, "MANIFEST.json"), "w"), indent=1)
 print("wrote MANIFEST with", len(checks), "checks")
